@@ -80,3 +80,37 @@ Proof.
   exact (Hev (env_of fzero x' y' z' vars) (fresh_env (f32_sem o))).
 Qed.
 Print Assumptions C14_shape_point_evaluation.
+
+(* ---- Shape::bind / ShapeVars::check --------------------------------------------------- *)
+From FV Require Import ShapeCheck.
+
+(* a table is accepted exactly when it holds every non-axis variable of the shape: its size and whatever
+   else it holds do not matter, and neither does the iteration order of the map *)
+Theorem C14_bind_accepts_exactly_complete_tables :
+  forall (V : Type) (vars : @supplied V) (vm : varmap) (it : list (nat * nat)),
+    Permutation it (pairs vm) ->
+    (vars_check vars it = None <-> forall v, In v vm -> 3 <= v -> vars v <> None).
+Proof. exact (@check_accepts_exactly_complete_tables). Qed.
+Print Assumptions C14_bind_accepts_exactly_complete_tables.
+
+Theorem C14_bind_rejection_names_a_missing_variable :
+  forall (V : Type) (vars : @supplied V) (vm : varmap) (it : list (nat * nat)) (w : nat),
+    Permutation it (pairs vm) -> vars_check vars it = Some w -> In w vm /\ 3 <= w /\ vars w = None.
+Proof. exact (@check_rejection_names_a_missing_variable). Qed.
+Print Assumptions C14_bind_rejection_names_a_missing_variable.
+
+Theorem C14_bind_ignores_unrelated_entries :
+  forall (V : Type) (vars vars' : @supplied V) (vm : varmap) (it : list (nat * nat)),
+    Permutation it (pairs vm) ->
+    (forall v, In v vm -> (vars v = None <-> vars' v = None)) ->
+    vars_check vars it = vars_check vars' it.
+Proof. exact (@check_ignores_unrelated_entries). Qed.
+Print Assumptions C14_bind_ignores_unrelated_entries.
+
+(* binding accepts exactly the tables with which evaluation cannot report a missing variable *)
+Theorem C14_bind_agrees_with_evaluation :
+  forall (V : Type) (zero x y z : V) (vars : @supplied V) (vm : varmap) (it : list (nat * nat)),
+    Permutation it (pairs vm) ->
+    (vars_check vars it = None <-> exists s, scratch_of zero x y z vars vm it = Ok s).
+Proof. exact (@check_agrees_with_evaluation). Qed.
+Print Assumptions C14_bind_agrees_with_evaluation.
